@@ -337,3 +337,18 @@ def accepts_type(repo, func, value):
         return None
     except AnalysisError:
         return None
+
+
+def gate_outcome(repo, func, value):
+    """'accept' | 'TypeError' (library) | 'foreign:<class>' | None"""
+    ev = Evaluator(repo, func.module, {}, None, GateHooks())
+    try:
+        ev.inline(func, [value], {})
+        return "accept"
+    except Raised as r:
+        c = str(r.cls)
+        if c.startswith("builtins.") or c in ("Exception",):
+            return "foreign:" + c
+        return "TypeError" if c.endswith("TypeError") else "accept"
+    except AnalysisError:
+        return None
